@@ -21,14 +21,15 @@ def own_panic_sites(fn, kinds=("explicit", "unwrap", "expect")):
     out = []
     for bi, t in fn.calls():
         c = t["f"] or ""
+        rc = callee_name(t)
         k = None
         if EXPLICIT.match(c):
             k = "explicit"
         elif c in UNWRAPS:
             k = UNWRAPS[c]
-        elif c.startswith("core::str::traits::") and c.endswith("::index") or c == "core::str::slice_error_fail":
+        elif rc.startswith("core::str::traits::") and rc.endswith("::index") or c == "core::str::slice_error_fail":
             k = "str-slice"
-        elif c.startswith("core::slice::index::") and (c.endswith("::index") or c.endswith("_fail") or c.endswith("::index_mut")):
+        elif rc.startswith("core::slice::index::") and (rc.endswith("::index") or rc.endswith("_fail") or rc.endswith("::index_mut")):
             k = "slice-index"
         if k and k in kinds:
             out.append({"kind": k, "callee": c, "line": t["line"], "block": bi, "exp": t["exp"], "term": t})
